@@ -276,6 +276,8 @@ func restC17(o *Opts) {
 				res.Violate("impl-failure", "C17/valid-request-not-2xx", fmt.Sprintf("%s %s (%s) answered %d", method, rawPath, why, r.Status), trace[len(trace)-1])
 			case why == "live-record" && (r.Status < 200 || r.Status > 299):
 				res.Violate("impl-failure", "C17/live-record-not-2xx", fmt.Sprintf("%s %s addresses a live record but was answered %d", method, rawPath, r.Status), trace[len(trace)-1])
+			case why == "malformed-request" && r.Status != 400 && !(r.Status == 404 && !strings.HasSuffix(u.Path, "/collections")):
+				res.Violate("impl-failure", "C17/malformed-not-400", fmt.Sprintf("%s %s %s is malformed but was answered %d", method, rawPath, abbreviate(string(body), 80), r.Status), trace[len(trace)-1])
 			case why == "unknown-record" && r.Status != 404:
 				res.Violate("impl-failure", "C17/unknown-record-not-404", fmt.Sprintf("%s %s addresses a record that does not exist but was answered %d", method, rawPath, r.Status), trace[len(trace)-1])
 			}
@@ -399,6 +401,30 @@ func restC17(o *Opts) {
 					body["filter"] = "k == '1' OR u EXISTS"
 				}
 				send("POST", base+"/search", []byte(jsonS(body)), why)
+			case k < 91:
+				// malformed in one place, on every route that takes input: a distance function that does not exist, a record id
+				// that is not an unsigned decimal, a metadata body that is not JSON — 400 whatever else is right about the request
+				switch rng.Intn(5) {
+				case 4:
+					// a record with neither vector nor text, alone or behind a valid one
+					recs := []map[string]any{{"id": genID(rng, 12), "metadata": map[string]string{"k": "v"}}}
+					if rng.Intn(2) == 0 && exists {
+						recs = append([]map[string]any{{"id": genID(rng, 12), "vector": make([]float64, dims[n]), "metadata": map[string]string{"k": "w"}}}, recs...)
+					}
+					send("POST", base+"/records", []byte(jsonS(recs)), "malformed-request")
+				case 0:
+					df := []any{"manhattan", "", "COSINE ", 5}[rng.Intn(4)]
+					send("POST", "/api/v1/collections", []byte(jsonS(map[string]any{"name": n, "distance_function": df, "vector_size": 2, "quantization": 64})), "malformed-request")
+				case 1:
+					bad := []string{"abc", "-1", "1.5", "18446744073709551616", "0x10", "1e3"}[rng.Intn(6)]
+					send("PUT", base+"/records/"+bad+"/metadata", []byte(jsonS(map[string]any{"metadata": map[string]string{"u": "x"}})), "malformed-request")
+				case 2:
+					bad := []string{"abc", "-1", "1.5", "18446744073709551616", "0x10", "1e3"}[rng.Intn(6)]
+					send("DELETE", base+"/records/"+bad, nil, "malformed-request")
+				default:
+					id := genID(rng, 14)
+					send("PUT", fmt.Sprintf("%s/records/%d/metadata", base, id), []byte([]string{"{", "[1", `{"metadata":5}`, `"x"`}[rng.Intn(4)]), "malformed-request")
+				}
 			case k < 96:
 				p := []string{base + "/records", "/api/v1/collections", base + "/search"}[rng.Intn(3)]
 				send("POST", p, []byte([]string{"{", "[1", `{"name":5}`, `[{"id":"x"}]`, ""}[rng.Intn(5)]), "malformed-body")
